@@ -195,28 +195,40 @@ def _sec1_bytes(pre, x, y, lv):
     return full if lv in (33, 65) else full[:-1] if lv in (32, 64) else full + b"\x00"
 
 
-def _stage_ab(ctx):
-    import bits
-    import bits.pem
-    import bits.utils as bu
-
-    quick = ctx.tier == "quick"
+def _run_models(tier):
+    """All TLC runs of stage A / B (no call into the library, safe to run beside the stage-C generation)."""
+    devs = []
     for cfgn, expect in (("S1_dev_sec1nolen", "Sec1AcceptExact"), ("S1_dev_pemstrip", "PemPrivExact")):
         r = vlib.tlc("MC_Keys", f"MC_Keys_{cfgn}.cfg", workers=8, timeout=1200)
         if r.completed or r.invariant != expect:
             raise vlib.MachineryFailure(f"vacuity guard: deviation {cfgn} was not refuted through {expect} (got {r.invariant}):\n{r.error_text()[:600]}")
-        ctx.cov["stage_a"].append({"model": f"MC_Keys_{cfgn}.cfg", "constants": "named deviation; TLC must find the counterexample",
-                                   "distinct_states": r.distinct, "states_generated": r.generated, "depth": r.depth,
-                                   "exhaustive": True, "refuted_invariant": r.invariant, "wall_s": round(r.wall, 1)})
-    curves = [("S1", "S1q")] if quick else [("S1", "S1t"), ("S2", "S2t"), ("S5", "S5t")]
-    samples = {}
+        devs.append((cfgn, r))
+    curves = [("S1", "S1q")] if tier == "quick" else [("S1", "S1t"), ("S2", "S2t"), ("S5", "S5t")]
+    runs = []
     for cn, cfgname in curves:
-        c = SMALL[cn]
         cfg = f"MC_Keys_{cfgname}.cfg"
         with ThreadPoolExecutor(2) as ex:
             fa = ex.submit(vlib.tlc_ok, "MC_Keys", cfg, workers=16, timeout=3000, tag=f"c14a-{cn}-{os.getpid()}")
             fb = ex.submit(vlib.tlc_ok, "MC_Keys", cfg, workers=16, timeout=3000, native=True, tag=f"c14b-{cn}-{os.getpid()}")
-            ra, rb = fa.result(), fb.result()
+            runs.append((cn, cfg, fa.result(), fb.result()))
+    return devs, runs
+
+
+def _stage_ab(ctx, models):
+    """Book the model runs and replay the SHA-256 table into the retargeted code (main thread only: retarget() rebinds
+    the library's curve constants globally)."""
+    import bits
+    import bits.pem
+    import bits.utils as bu
+
+    devs, runs = models
+    for cfgn, r in devs:
+        ctx.cov["stage_a"].append({"model": f"MC_Keys_{cfgn}.cfg", "constants": "named deviation; TLC must find the counterexample",
+                                   "distinct_states": r.distinct, "states_generated": r.generated, "depth": r.depth,
+                                   "exhaustive": True, "refuted_invariant": r.invariant, "wall_s": round(r.wall, 1)})
+    samples = {}
+    for cn, cfg, ra, rb in runs:
+        c = SMALL[cn]
         ctx.stage_a(cfg, ra, constants=f"curve {cn} p={c['p']} b=7 n={c['n']}: all prefix.X.[Y] strings (7 prefixes, X,Y in 0..p+2, 6 lengths); WIF 24 combos x keys x "
                                        f"suffixes + crafted strings; PEM all keys 0..n+1; Base64 short strings; wrapping; toy hashes")
         for r, what in ((ra, "toy"), (rb, "sha256")):
@@ -586,10 +598,8 @@ def _selftests(ctx):
     for e, expect in probes:
         if verdicts[e["id"]] != expect:
             raise vlib.MachineryFailure(f"spec/binding self-test: expected verdict {expect!r}, validator said {verdicts[e['id']]!r} for {json.dumps(e)[:240]}")
-    ctx.cov["stage_c"].append(dict(validator="Trace_Keys self-tests (SEC2 base point, bits doctest key, Bitcoin-wiki WIF example, OpenSSL PEM documents; corrupted fields)",
-                                   probes=len(probes), **stats))
-    ctx.cov["states"] += stats.get("distinct", 0)
-    ctx.cov["transitions"] += stats.get("states", 0)
+    return dict(validator="Trace_Keys self-tests (SEC2 base point, bits doctest key, Bitcoin-wiki WIF example, OpenSSL PEM documents; corrupted fields)",
+                                   probes=len(probes), **stats)
 
 
 def run(ctx):
@@ -604,13 +614,20 @@ def run(ctx):
     vlib.native_selftest()
     CHUNK[0] = 60 if ctx.tier == "quick" else 150
     rnd = random.Random(ctx.seed * 69621 + 14)
-    with ThreadPoolExecutor(2) as ex:
+    # TLC runs proceed in parallel threads; every call into the library happens in THIS thread: first the secp256k1
+    # events, then the replay into the retargeted code (retarget() rebinds the curve constants globally)
+    with ThreadPoolExecutor(3) as ex:
         fs = ex.submit(_selftests, ctx)
-        fc = ex.submit(lambda: (lambda ev: (ev, _validate(ev, "c14")))(_gen_c(ctx, rnd)))
-        _stage_ab(ctx)
-        fs.result()
-        ev, (verdicts, stats) = fc.result()
-    _report(ctx, ev, verdicts, "c14")
+        fm = ex.submit(_run_models, ctx.tier)
+        ev = _gen_c(ctx, rnd)
+        fc = ex.submit(_validate, ev, "c14")
+        verdicts, stats = fc.result()
+        _report(ctx, ev, verdicts, "c14")            # secp256k1 cases first in the replay files
+        _stage_ab(ctx, fm.result())
+        st = fs.result()
+        ctx.cov["stage_c"].append(st)
+        ctx.cov["states"] += st.get("distinct", 0)
+        ctx.cov["transitions"] += st.get("states", 0)
     from collections import Counter
     ctx.stage_c("Trace_Keys (secp256k1)", len(ev), stats, by_op=dict(Counter(e["op"] for e in ev)))
     for cls in ("x>=p", "suffix-120", "openssl-public-compressed"):
